@@ -241,7 +241,8 @@ def part_misc(ctx: Ctx) -> Result:
     # allow-lists
     lib = lib_files()
     sample = [f for f in lib if f.endswith(("json/decoder.py", "six.py", "yaml/__init__.py", "os.py", "_pytest/main.py", "click/core.py"))][:8] + list(user.values())
-    names = ["json", "six", "yaml", "app", "usermod", "core", "absent_name"]
+    sample += ["<string>", "<frozen importlib._bootstrap>", "<stdin>"]   # synthetic names are never admitted, allow-list or not
+    names = ["json", "six", "yaml", "app", "usermod", "core", "absent_name", Path(os.getcwd()).name or "verif", "<string>"]
     old = os.environ.get("MONKEYTYPE_TRACE_MODULES")
     try:
         for k in (0, 1, 2, 3):
@@ -299,8 +300,29 @@ import {mod} as M
 def main_helper(x):
     return M.f0(x)
 
+class ScriptClass:
+    def __init__(self, v):
+        self.v = v
+
+    def method(self, x):
+        return M.f0(x)
+
+    @staticmethod
+    def smethod(x):
+        return x
+
+    @classmethod
+    def cmethod(cls, x):
+        return x
+
+def outer_in_script(x):
+    def inner_in_script(y):
+        return y
+    return inner_in_script(x)
+
 def main_entry():
     out = [main_helper(1), M.f1("a"), M.K().m(2), M.K.cm(3), M.K.sm(4), json.dumps([1])]
+    out += [ScriptClass(1).method(2), ScriptClass.smethod(3), ScriptClass.cmethod(4), outer_in_script(5)]
     return out
 
 RESULT = main_entry()
@@ -360,9 +382,9 @@ def part_run(ctx: Ctx) -> Result:
     case = {"part": "R"}
     if rc != 0:
         res.violate(Violation(ID, "run", "nonzero", case, f"run rc={rc} {err.getvalue()[:300]}"))
-    if any(m == "__main__" for m, _ in rows):
+    if any(m == "__main__" or m.startswith("__main__") for m, _ in rows):
         res.violate(Violation(ID, "run", "main-recorded", case, f"__main__ functions recorded: {sorted(rows)}"))
-    extra = {r for r in rows if r[0] not in (modname, "__main__")}
+    extra = {r for r in rows if r[0] not in (modname,) and not r[0].startswith("__main__")}
     if extra:
         res.violate(Violation(ID, "run", "library-code-recorded", case, f"rows from rejected code: {sorted(extra)[:5]}"))
     missing = want - rows
